@@ -247,15 +247,44 @@ func (g *Gen) kdInputs(j int) kdInputs {
 
 func (c *Ctx) c07Direct(g *Gen, corr *[]corrCase) {
 	s := c.suite("ike-sa-keys-vs-rfc", "oracle",
-		"all 27 (encryption key size x integrity x PRF) combinations x random nonce / secret (1..512 octets, biased to 1, 512 and the hash block/digest boundaries; all-zero, all-ff and random content) x SPI pairs: GenerateKeyForIKESA on a new IKESAKey, then a 2nd derivation with other inputs and (every 3rd case) a 3rd with the first inputs on the SAME object; after each: the seven keys = slices of stdlib prf+(HMAC(Ni|Nr, g^ir), Ni|Nr|SPIi|SPIr) with RFC lengths, Prf_*/Integ_* = HMAC under those keys (untouched Sum, Reset+Write+Sum, Size), Encr_* decrypt stdlib AES-CBC and encrypt decryptably; input buffers overwritten after the call; non-trivial = every case; distinct by (suite, inputs, derivation number)")
+		"all 27 (encryption key size x integrity x PRF) combinations x random nonce / secret (1..512 octets, biased to 1, 512 and the hash block/digest boundaries; all-zero, all-ff and random content) x SPI pairs: GenerateKeyForIKESA on a new IKESAKey, then a 2nd derivation with other inputs and (every 3rd case) a 3rd with the first inputs on the SAME object; after each: the seven keys = slices of stdlib prf+(HMAC(Ni|Nr, g^ir), Ni|Nr|SPIi|SPIr) with RFC lengths, Prf_*/Integ_* = HMAC under those keys (untouched Sum, Reset+Write+Sum, Size), Encr_* decrypt stdlib AES-CBC and encrypt decryptably; input buffers overwritten after the call; the last 3 SA objects stay alive and are re-inspected (key fields, keyed objects) after the derivations for later SA objects and Child SAs; non-trivial = every case; distinct by (suite, inputs, derivation number)")
 	per := c.n(6, 300)
 	idx := 0
+	// SAs derived earlier stay alive: whatever is derived later (for other SAs) must leave their keys alone
+	type kept struct {
+		sa   *security.IKESAKey
+		want *saKeys
+		line string
+	}
+	var retained []kept
+	recheck := func(idx int) bool {
+		for _, kp := range retained {
+			if got := kdKeysStr(kp.sa); got != kp.want.keysStr() {
+				c.violate(Violation{Suite: s.Name, Kind: "property", Index: idx, Class: "ike-keys:changed-by-later-derivation",
+					Desc:  "the keys of an IKE SA derived earlier no longer equal the RFC 7296 values after key derivations for OTHER SA objects (replay: re-run of the whole suite with this seed)",
+					Input: "", Expected: kp.line + " -> " + kp.want.keysStr(), Actual: clip(got)})
+				return false
+			}
+			if msg := kdProbeGuard(g, kp.sa, kp.want, false); msg != "" {
+				c.violate(Violation{Suite: s.Name, Kind: "property", Index: idx, Class: "ike-keys:objects-changed-by-later-derivation",
+					Desc: "an IKE SA derived earlier, after key derivations for other SA objects: " + msg, Input: "", Expected: kp.line, Actual: msg})
+				return false
+			}
+		}
+		return true
+	}
 	for e := 0; e < 3; e++ {
 		for i := 0; i < 3; i++ {
 			for p := 0; p < 3; p++ {
 				st := suite{e, i, p}
 				for j := 0; j < per; j++ {
 					idx++
+					if len(retained) > 0 && !recheck(idx) {
+						return
+					}
+					if len(retained) >= 3 {
+						retained = retained[1:]
+					}
 					sa := kdBlankSA(st, j%2)
 					a, b := g.kdInputs(j), g.kdInputs(3+j)
 					seq := []kdInputs{a, b}
@@ -289,6 +318,13 @@ func (c *Ctx) c07Direct(g *Gen, corr *[]corrCase) {
 							c.violate(Violation{Suite: s.Name, Kind: "property", Index: idx, Class: "ike-keys:objects",
 								Desc: fmt.Sprintf("derivation #%d: %s", n+1, msg), Input: line, Expected: "objects keyed with the derived keys", Actual: msg})
 							break
+						}
+						if n == len(seq)-1 {
+							retained = append(retained, kept{sa, want, line})
+							if j%2 == 0 { // a Child SA derivation from another SA in between
+								k2 := g.saKeys(suite{g.intn(3), g.intn(3), g.intn(3)})
+								kdChildDerive(kdChild(g, g.intn(3), g.intn(4)-1), newSA(k2), g.bytes(g.kdLen()))
+							}
 						}
 					}
 				}
@@ -427,16 +463,50 @@ func kdRefShared(grp int, x, y *big.Int) []byte {
 	return kdPad(kdModPow(y, x, kdPrimes[grp]), kdGroupLen[grp])
 }
 
+// octet strings the DH functions returned earlier stay referenced (as an SA holding its public value and
+// shared secret does): a later call must not change them
+type dhKeptT struct {
+	b    []byte
+	was  string
+	what string
+}
+
+var dhKept []dhKeptT
+
+func dhKeep(b []byte, what string) {
+	if len(dhKept) >= 6 {
+		dhKept = dhKept[1:]
+	}
+	dhKept = append(dhKept, dhKeptT{b, hx(b), what})
+}
+
+func dhKeptChanged() (what, was, now string) {
+	for _, k := range dhKept {
+		if n := hx(k.b); n != k.was {
+			return k.what, k.was, n
+		}
+	}
+	return "", "", ""
+}
+
 func kdGoPub(grp int, xb []byte) callRes {
 	t := dh.StrToType(dhNames[grp])
 	x := new(big.Int).SetBytes(xb)
-	return guard(func() (string, error) { return hx(t.GetPublicValue(x)), nil })
+	return guard(func() (string, error) {
+		b := t.GetPublicValue(x)
+		dhKeep(b, fmt.Sprintf("dhpub %d %s", grp, hx(xb)))
+		return hx(b), nil
+	})
 }
 
 func kdGoShared(grp int, xb, yb []byte) callRes {
 	t := dh.StrToType(dhNames[grp])
 	x, y := new(big.Int).SetBytes(xb), new(big.Int).SetBytes(yb)
-	return guard(func() (string, error) { return hx(t.GetSharedKey(x, y)), nil })
+	return guard(func() (string, error) {
+		b := t.GetSharedKey(x, y)
+		dhKeep(b, fmt.Sprintf("dhshared %d %s %s", grp, hx(xb), hx(yb)))
+		return hx(b), nil
+	})
 }
 
 // what GenerateRandomNumber must return for a given octet stream: the first
@@ -779,9 +849,16 @@ func (c *Ctx) c08Direct(g *Gen, corr *[]corrCase) {
 	}
 }
 
+type keptChild struct {
+	ck   *security.ChildSAKey
+	want string
+	line string
+}
+
 func (c *Ctx) c08History(g *Gen, corr *[]corrCase) {
+	var keptChildren []keptChild
 	s := c.suite("child-derivation-history", "oracle",
-		fmt.Sprintf("per PRF one long-lived IKESAKey object: %d Child SA derivations (random transform choice and nonce each) interleaved with EncodeEncrypt, DecodeDecrypt of a peer's message, DecodeDecrypt of garbage and foreign writes into Prf_d; every derivation must equal (a) the derivation on a freshly constructed copy of the SA and (b) the stdlib reference; plus childkeys lines with k = 1..6 earlier derivations; non-trivial = derivation number >= 2; distinct by (history, position, inputs)", c.n(64, 1000)))
+		fmt.Sprintf("per PRF one long-lived IKESAKey object: %d Child SA derivations (random transform choice and nonce each) interleaved with EncodeEncrypt, DecodeDecrypt of a peer's message, DecodeDecrypt of garbage and foreign writes into Prf_d; every derivation must equal (a) the derivation on a freshly constructed copy of the SA and (b) the stdlib reference; the last 3 ChildSAKey objects are re-inspected after each later derivation; plus childkeys lines with k = 1..6 earlier derivations; non-trivial = derivation number >= 2; distinct by (history, position, inputs)", c.n(64, 1000)))
 	n := c.n(64, 1000)
 	for p := 0; p < 3; p++ {
 		st := suite{g.intn(3), g.intn(3), p}
@@ -809,9 +886,22 @@ func (c *Ctx) c08History(g *Gen, corr *[]corrCase) {
 			line := fmt.Sprintf("history prf=%d #%d %s", p, d, kdChildLine("childkeys", p, k.d, e, i, nonce))
 			setCase(line)
 			s.add(line, d >= 2, fmt.Sprintf("prf:%d", p), fmt.Sprintf("integ:%d", i), fmt.Sprintf("position:%s", kdBucket(d)))
-			long := kdChildDerive(kdChild(g, e, i), sa, nonce)
+			ck := kdChild(g, e, i)
+			long := kdChildDerive(ck, sa, nonce)
 			fresh := kdChildDerive(kdChild(g, e, i), newSA(k), nonce)
 			want := "ok " + kdRefChild(p, k.d, nonce, e, i)
+			for _, kp := range keptChildren { // Child SAs derived earlier keep their keys
+				if got := "ok " + kdChildStr(kp.ck); got != kp.want {
+					c.violate(Violation{Suite: s.Name, Kind: "property", Index: d, Class: "child-keys-changed-by-later-derivation",
+						Desc:  "the keys of a Child SA derived earlier changed when a later Child SA was derived from the same IKE SA (replay: re-run of the whole suite with this seed)",
+						Input: "", Expected: kp.line + " -> " + kp.want, Actual: clip(got)})
+					return
+				}
+			}
+			if len(keptChildren) >= 3 {
+				keptChildren = keptChildren[1:]
+			}
+			keptChildren = append(keptChildren, keptChild{ck, want, line})
 			if long.String() != fresh.String() || long.String() != want {
 				c.violate(Violation{Suite: s.Name, Kind: "property", Index: d, Class: "child-history",
 					Desc:  fmt.Sprintf("derivation #%d on a long-lived SA object differs from the derivation on a fresh copy / the RFC reference", d),
@@ -947,7 +1037,7 @@ func (c *Ctx) c09Primes() {
 
 func (c *Ctx) c09Values(g *Gen, corr *[]corrCase) {
 	s := c.suite("dh-values-vs-reference", "oracle",
-		"both groups; exponents 0, 1, 2, (p-1)/2, p-1, p, p+1, 2^2048-1, exponents 8(L-k)-8..8(L-k)-1 and p-1+those (public value 2^e with k = 1..3 leading zero octets), random 2048-bit and short exponents, with and without leading zero octets in their encoding; peer values 0, 1, 2, p-1, p, p+1, 2p, 2^(8L)-1, 2^2056-1, random < 2^2056, random < p, small, and peers t^(1/x) constructed so that the shared secret is a chosen t with 1..3 (or L-1) leading zero octets for a random large odd x; GetPublicValue / GetSharedKey = own square-and-multiply over the RFC prime literal (cross-checked with big.Int.Exp), left-padded to exactly 128 / 256 octets; agreement shared(a, pub(b)) = shared(b, pub(a)) on all exponent pairs of a sample; non-trivial = exponent > 1 and base > 1; distinct by (group, op, exponent, peer)")
+		"both groups; exponents 0, 1, 2, (p-1)/2, p-1, p, p+1, 2^2048-1, exponents 8(L-k)-8..8(L-k)-1 and p-1+those (public value 2^e with k = 1..3 leading zero octets), random 2048-bit and short exponents, with and without leading zero octets in their encoding; peer values 0, 1, 2, p-1, p, p+1, 2p, 2^(8L)-1, 2^2056-1, random < 2^2056, random < p, small, and peers t^(1/x) constructed so that the shared secret is a chosen t with 1..3 (or L-1) leading zero octets for a random large odd x; GetPublicValue / GetSharedKey = own square-and-multiply over the RFC prime literal (cross-checked with big.Int.Exp), left-padded to exactly 128 / 256 octets; agreement shared(a, pub(b)) = shared(b, pub(a)) on all exponent pairs of a sample; the last 6 returned octet strings stay referenced and must not change during later calls; non-trivial = exponent > 1 and base > 1; distinct by (group, op, exponent, peer)")
 	for grp := 0; grp < 2; grp++ {
 		P := kdPrimes[grp]
 		L := kdGroupLen[grp]
@@ -1002,6 +1092,12 @@ func (c *Ctx) c09Values(g *Gen, corr *[]corrCase) {
 				if idx%2 == 0 {
 					*corr = append(*corr, corrCase{line: "spec-" + line, goRes: r.String(), nontr: nontr, tags: []string{"op:spec-" + op}})
 				}
+			}
+			if what, was, now := dhKeptChanged(); what != "" {
+				dhKept = nil
+				c.violate(Violation{Suite: s.Name, Kind: "property", Index: idx, Class: "dh-value:changed-by-later-call",
+					Desc:  "an octet string returned by an EARLIER GetPublicValue / GetSharedKey call (" + clip(what) + ") changed during this call (replay: re-run of the whole suite with this seed)",
+					Input: "", Expected: clip(was), Actual: clip(now)})
 			}
 			if r.String() != "ok "+hx(want) || len(want) != L {
 				c.violate(Violation{Suite: s.Name, Kind: "property", Index: idx, Class: "dh-value:" + op + ":" + r.kind,
